@@ -11,6 +11,8 @@
 //               uniform draws consumed (exact, via the discrete log of the state) bounded, and the exact
 //               population mean / variance / skewness over all M-1 states against theory
 //   tb_grid_vs_points  exact equality of the DbGrid and point-Db code paths of turning bands, every structure type (E1)
+//   fft_kernel  the covariance kernel simfft discretises (inverse transform of its stored spectrum) vs Model::eval at the lags
+//               given by the grid geometry: rotated grids, non-square meshes, non-aligned anisotropy, 2-D and 3-D (E1)
 //   popsim      FFT / Cholesky / spectral / SPDE / per-branch turning bands: exact population statistics over every seed
 //   microsim    turning-bands micro-simulations: simtub() is run for EVERY seed 1..M-1 (map/reduce over forked
 //               children); the exact population mean, variance, spatial and cross covariance of the simulated
@@ -537,6 +539,7 @@ VF_PART(microsim)
 #include "Matrix/NF_Triplet.hpp"
 #include "Mesh/MeshETurbo.hpp"
 #include "Simulation/CalcSimuFFT.hpp"
+#include "Core/fftn.hpp"
 #include "Simulation/SimuFFTParam.hpp"
 #include "Simulation/SimuSpectral.hpp"
 
@@ -1159,6 +1162,106 @@ VF_PART(tb_grid_vs_points)
       if (id % 211 == 0) C.sample("{\"id\":" + kase + ",\"case\":" + jstr(desc) + ",\"active_nodes\":" + std::to_string(nactive) + ",\"max_abs_diff_vs_points\":" + f6(worstP) + ",\"max_abs_diff_vs_unmasked\":" + f6(worstG) + "}");
     }
     delete g; delete p; delete m; delete gm;
+  });
+}
+
+// ---------------------------------------------------------------------------------------------------------
+// fft_kernel (E1, exact up to the documented approximation of the method): the covariance kernel that CalcSimuFFT really
+// discretises.  The field produced by the FFT method has, by construction, the covariance c(n) whose discrete Fourier
+// transform is the spectrum stored by _prepar(); the harness runs _alloc() + _prepar(false) on the real code (private
+// members through -fno-access-control), transforms the stored spectrum back with the library's fftn and compares c(n), for
+// every index offset |n_j| <= 2, with Model::eval at the lag h = sum_j n_j e_j, where the mesh vectors e_j are taken from the
+// coordinates of the grid nodes (DbGrid geometry, independent of the FFT code).  This decides, without sweeping the seed
+// space, what the population part cannot afford for every geometry: rotated grids (angles that are not multiples of 90
+// degrees), non-square meshes, anisotropic models whose main axis is not aligned with the grid, 2-D and 3-D.
+// Tolerance 2 % of the sill: the method periodises the covariance over the dilated grid (dilation until the covariance is
+// below percent = 0.1 % of the sill, aliasing correction over 3^ndim images renormalised at lag 0) and zeroes negative
+// spectral terms with a rescaling of the others; measured on the unchanged tree: see the outcome histogram (worst
+// deviation buckets).  A wrong lag geometry moves c(n) by 5-40 % of the sill.
+VF_PART(fft_kernel)
+{
+  Space sp;
+  sp.axis("grid", 8).axis("model", 6).axis("aliasing", 2);
+  for_each_case(C, sp, [&](uint64_t id, const std::vector<int>& ix) {
+    int ndim = ix[0] >= 6 ? 3 : 2;
+    defineDefaultSpace(ESpaceType::RN, ndim);
+    DbGrid* g;
+    switch (ix[0])
+    {
+      case 0: g = DbGrid::create({4, 4}); break;
+      case 1: g = DbGrid::create({5, 3}, {1., 0.5}, {10., -3.}); break;
+      case 2: g = DbGrid::create({4, 4}, {1., 1.}, {0., 0.}, {30., 0.}); break;              // rotated, square mesh
+      case 3: g = DbGrid::create({4, 4}, {1., 0.5}, {1., 2.}, {30., 0.}); break;             // rotated, dx != dy
+      case 4: g = DbGrid::create({5, 3}, {0.5, 1.25}, {0., 0.}, {70., 0.}); break;           // rotated, dx != dy
+      case 5: g = DbGrid::create({3, 5}, {1.5, 0.75}, {-2., 1.}, {-20., 0.}); break;         // rotated the other way
+      case 6: g = DbGrid::create({3, 3, 2}, {1., 0.5, 2.}, {0., 1., -1.}); break;            // 3-D
+      default: g = DbGrid::create({3, 2, 3}, {1., 0.5, 0.75}, {0., 0., 0.}, {25., 0., 0.}); break;  // 3-D rotated about z
+    }
+    Model* m;
+    VectorDouble r2 = ndim == 2 ? VectorDouble{3., 1.5} : VectorDouble{3., 1.5, 2.};
+    VectorDouble a2 = ndim == 2 ? VectorDouble{40., 0.} : VectorDouble{40., 0., 0.};
+    switch (ix[1])
+    {
+      case 0: m = Model::createFromParam(ECov::SPHERICAL, 2.5, 1.5); break;
+      case 1: m = Model::createFromParam(ECov::SPHERICAL, 1., 2., 1., r2); break;                        // anisotropic, axes = coordinate axes
+      case 2: m = Model::createFromParam(ECov::SPHERICAL, 1., 2., 1., r2, VectorDouble(), a2); break;     // anisotropic, rotated 40 degrees
+      case 3: m = Model::createFromParam(ECov::EXPONENTIAL, 1., 1., 1., r2, VectorDouble(), a2); break;
+      case 4: m = Model::createFromParam(ECov::GAUSSIAN, 2., 0.75); break;
+      default: m = Model::createFromParam(ECov::CUBIC, 1., 1.25, 1., r2, VectorDouble(), a2); m->addCovFromParam(ECov::EXPONENTIAL, 1.5, 0.5); break;
+    }
+    std::string kase = std::to_string(id);
+    std::string desc = "grid menu " + std::to_string(ix[0]) + ", model menu " + std::to_string(ix[1]) + ", aliasing " + (ix[2] ? "on" : "off");
+    CalcSimuFFT calc(1, false, 1);
+    calc.setDbout(g);
+    calc.setModel(m);
+    calc.setParam(SimuFFTParam(ix[2] == 1, 0.1));
+    if (!calc._check() || !calc._preprocess()) { C.skip(); C.outcome("refused"); delete g; delete m; return; }
+    calc._alloc();
+    calc._prepar(false);
+    C.eval();
+    int N = calc._sizes_alloc;
+    std::vector<double> u(calc._cmat.begin(), calc._cmat.end()), v(N, 0.);
+    VectorInt dims = calc._dims;
+    (void)fftn(ndim, dims.data(), u.data(), v.data(), 1, 1.);
+    // mesh vectors from the grid geometry
+    int nxs[3] = {g->getNX(0), g->getNX(1), ndim == 3 ? g->getNX(2) : 1};
+    int unitRank[3] = {1, nxs[0], nxs[0] * nxs[1]};
+    double e[3][3] = {{0}};
+    for (int j = 0; j < ndim; j++) for (int d = 0; d < ndim; d++) e[j][d] = g->getCoordinate(unitRank[j], d) - g->getCoordinate(0, d);
+    double sill = m->eval(SpacePoint(VectorDouble(ndim, 0.)), SpacePoint(VectorDouble(ndim, 0.)));
+    double worst = 0., wgot = 0., wexp = 0., maxim = 0.;
+    int wn[3] = {0, 0, 0};
+    int lim[3] = {2, 2, ndim == 3 ? 1 : 0};
+    for (int n2 = -lim[2]; n2 <= lim[2]; n2++)
+      for (int n1 = -lim[1]; n1 <= lim[1]; n1++)
+        for (int n0 = -lim[0]; n0 <= lim[0]; n0++)
+        {
+          int n[3] = {n0, n1, n2};
+          int idx[3];
+          bool ok = true;
+          for (int j = 0; j < 3; j++) { int dj = j < ndim ? calc._dims[j] : 1; if (std::abs(n[j]) * 2 >= dj && dj > 1) ok = false; idx[j] = ((n[j] % dj) + dj) % dj; }
+          if (!ok) continue;
+          VectorDouble h(ndim, 0.);
+          for (int d = 0; d < ndim; d++) for (int j = 0; j < ndim; j++) h[d] += n[j] * e[j][d];
+          double expv = m->eval(SpacePoint(VectorDouble(ndim, 0.)), SpacePoint(h));
+          int lin = idx[0] + calc._dims[0] * (idx[1] + calc._dims[1] * idx[2]);
+          double got = u[lin];
+          maxim = std::max(maxim, std::fabs(v[lin]));
+          double dev = std::fabs(got - expv) / sill;
+          if (!(dev <= worst)) { worst = dev; wgot = got; wexp = expv; wn[0] = n0; wn[1] = n1; wn[2] = n2; }
+        }
+    bool rotated = ix[0] == 2 || ix[0] == 3 || ix[0] == 4 || ix[0] == 5 || ix[0] == 7;
+    if (rotated && (ix[1] == 1 || ix[1] == 2 || ix[1] == 3 || ix[1] == 5 || ix[0] != 2)) C.nontrivial(id);
+    const double TOLK = 0.02;
+    C.outcome(std::string(rotated ? "rotated-grid" : "axis-aligned-grid") + (worst <= 0.002 ? ":dev<=0.2%" : worst <= 0.005 ? ":dev<=0.5%" : worst <= 0.01 ? ":dev<=1%" : worst <= TOLK ? ":dev<=2%" : ":dev>2%"));
+    if (!(worst <= TOLK) || !(maxim <= 1e-8 * sill))
+      C.violation(std::string("fft:kernel:") + (rotated ? "rotated-grid" : "axis-aligned-grid"),
+                  desc + " (dilated " + std::to_string(calc._dims[0]) + "x" + std::to_string(calc._dims[1]) + (ndim == 3 ? "x" + std::to_string(calc._dims[2]) : "") + "): the covariance discretised by simfft at the index offset (" +
+                    std::to_string(wn[0]) + "," + std::to_string(wn[1]) + (ndim == 3 ? "," + std::to_string(wn[2]) : "") + ") is " + fmt(wgot) + ", the model at that lag gives " + fmt(wexp) + " (deviation " + f6(100 * worst) + " % of the sill; imaginary part " + f6(maxim) + ")",
+                  kase);
+    if (id % 7 == 0) C.sample("{\"id\":" + kase + ",\"case\":" + jstr(desc) + ",\"worst_dev\":" + f6(worst) + "}");
+    calc._cleanVariableDb(2);
+    delete g; delete m;
   });
 }
 
